@@ -48,6 +48,23 @@ def count_before_jobs(ctx):
     ctx.ob(f, 'temp file allocated before any job is submitted', bool(alloc and subs) and g.all_dominate(alloc, subs, g.NORMAL), 'workers would open a file that does not exist yet')
 
 
+@rule('C19.g', ['C19', 'C06'], floor=1)
+def an_allocated_temp_file_always_gets_its_jobs(ctx):
+    """The temporary file pre-allocated by the submitter is removed (or renamed) by the
+    worker that completes the *last job* of the transfer - nobody else.  So once
+    _allocate_temp_file returned, every normal path of _submit_get_object_jobs queues at
+    least one job: an early exit in between (a transfer already cancelled, say) marks the
+    download done and leaves the full-size temporary file behind."""
+    f = ctx.func('processpool.GetObjectSubmitter._submit_get_object_jobs')
+    g = ctx.cfg(f)
+    alloc = [x for c in own_calls(f.node) if (dotted(c.func) or '').endswith('_allocate_temp_file') for x in g.nodes_of(c)]
+    subs = [x for c in own_calls(f.node) if (dotted(c.func) or '').split('.')[-1] in ('_submit_single_get_object_job', '_submit_ranged_get_object_jobs') or
+            ((dotted(c.func) or '').endswith('_worker_queue.put')) for x in g.nodes_of(c)]
+    ctx.need(alloc and subs, '_submit_get_object_jobs: allocation / job submission not recognised')
+    ctx.ob(f, 'after _allocate_temp_file every normal path queues the jobs', g.must_pass(alloc, subs, [g.exit], g.NORMAL),
+           'a path leaves the submitter after the temporary file was created without queueing a job: no worker will ever remove that file')
+
+
 @rule('C19.b', ['C19'], floor=3)
 def every_job_is_accounted_for(ctx):
     """In GetObjectWorker._do_run every path from a non-shutdown get() back to the loop
